@@ -214,10 +214,10 @@ class VC:
                 return False
         return obl.block in self.reach_sets.get(b, ())
 
-    def assume_forall(self, guard, fn, nvars=1):
-        """universally quantified fact given as a Python closure over index terms; used through ground
-        instantiation only (goal skolems, their neighbours, index terms)"""
-        self.register_qa({'vars': [('i%d' % k, 'Int', 'int') for k in range(nvars)], 'fn': fn, 'guard': guard})
+    def assume_forall(self, guard, fn, nvars=1, sort='Int'):
+        """universally quantified fact given as a Python closure over index terms (or, with `sort`, over terms of that
+        sort: map keys); used through ground instantiation only (goal skolems, their neighbours, index / key terms)"""
+        self.register_qa({'vars': [('i%d' % k, sort, 'int' if sort == 'Int' else None) for k in range(nvars)], 'fn': fn, 'guard': guard})
 
     def register_qa(self, qa):
         qa['id'] = len(self.qas)
